@@ -125,9 +125,15 @@ Fixpoint pairwise_disjoint (ds : list driver) : bool :=
   | [] => true
   | d :: r => forallb (fun d' => fp_disjoint (snd d) (snd d')) r && pairwise_disjoint r
   end.
+(* coverage of [0, total) is decided on the candidate points 0 and every interval end: an uncovered bit would make the
+   least uncovered bit one of these (SvProofs.var_driven_sound) *)
+Definition all_ivls (ds : list driver) : list ivl := flat_map snd ds.
+Definition covered (ds : list driver) (x : ident) (b : Z) : bool := existsb (fun d => drives d x b) ds.
+Definition cand_points (ds : list driver) (x : ident) (total : Z) : list Z :=
+  0 :: map iv_hi (filter (fun i => Pos.eqb x (iv_var i) && (0 <? iv_hi i) && (iv_hi i <? total)) (all_ivls ds)).
 Definition var_driven (ds : list driver) (dc : vdecl) : bool :=
-  forallb (fun k => existsb (fun d => drives d (d_id dc) (Z.of_nat k)) ds)
-          (seq 0 (Z.to_nat (vbits (d_ty dc, d_dims dc)))).
+  let total := vbits (d_ty dc, d_dims dc) in
+  (total <=? 0) || forallb (covered ds (d_id dc)) (cand_points ds (d_id dc) total).
 
 Definition sv_no_multi_driver (F : file) (m : module) : bool := pairwise_disjoint (drivers F m).
 Definition sv_all_driven (F : file) (m : module) : bool := forallb (var_driven (drivers F m)) (mod_vars m).
